@@ -837,21 +837,23 @@ pub async fn apply_op(w: &mut World, op: &LogOp, stats: &mut ScriptStats) -> Res
         }
         LogOp::ReplaceAll { slot, recs, checkpoint } => {
             let s = *slot as usize % NUM_SLOTS;
-            if recs.is_empty() {
-                return Ok("skipped-empty-patch".into());
-            }
             let cur = w.model[s].clone();
             let m: Vec<MRec> = recs.iter().map(|r| w.mrec(s, r)).collect();
-            let correct = head_of(&m).unwrap();
+            // an empty patch has no head: no checkpoint can be correct for it, every such
+            // request must be refused and leave the log alone
+            let correct = head_of(&m);
             let (ck, label) = match checkpoint {
-                Checkpoint::Correct => (correct.clone(), "correct"),
+                Checkpoint::Correct => match &correct {
+                    Some(c) => (c.clone(), "correct"),
+                    None => (CommitProof::default(), "empty-patch/default-proof"),
+                },
                 Checkpoint::WrongRoot(bit) => {
-                    let mut p = correct.clone();
+                    let mut p = correct.clone().unwrap_or_default();
                     p.root.0[(*bit as usize / 8) % 32] ^= 1 << (bit % 8);
-                    (p, "wrong-root")
+                    (p, if correct.is_some() { "wrong-root" } else { "empty-patch/wrong-root" })
                 }
                 Checkpoint::OldHead => match head_of(&cur) {
-                    Some(p) => (p, "old-head"),
+                    Some(p) => (p, if correct.is_some() { "old-head" } else { "empty-patch/old-head" }),
                     None => (CommitProof::default(), "default-proof"),
                 },
                 Checkpoint::Longer(e) => {
@@ -860,7 +862,7 @@ pub async fn apply_op(w: &mut World, op: &LogOp, stats: &mut ScriptStats) -> Res
                     (head_of(&v).unwrap(), "longer")
                 }
             };
-            let expect_ok = ck == correct;
+            let expect_ok = correct.as_ref() == Some(&ck);
             let records: Vec<EventRecord> = m.iter().map(to_record).collect();
             let res: Result<(), String> = with_log!(&mut w.logs[s], l => {
                 let diff = Diff::new(Patch::new(records), ck, None);
